@@ -177,6 +177,7 @@ type muxGen struct {
 	reorder        bool     // some H264 tracks carry B-frames
 	h26xOnly       bool     // video is H264 or H265 (codecs whose parameter sets travel in-band as NAL units)
 	videoKinds     []string // if set: the video codec is one of these
+	noPPS          bool     // H264 only: the Track is configured without parameter sets and the stream never carries a PPS
 	paramChangeDen int      // a parameter change at a key frame with probability 1/paramChangeDen (default 6)
 }
 
@@ -225,9 +226,16 @@ func genMuxCfg(r *Run, g *muxGen) *muxCfg {
 			}
 		}
 		reorder := g.reorder && kind == "h264" && T.Chance(1, 3)
+		if g.noPPS {
+			kind = "h264"
+		}
 		p := videoParamVariantR(kind, T.Intn(16), reorder)
 		ts := &trackSpec{kind: kind, video: true, clock: 90000, initial: p, reorder: reorder}
 		ts.t = newVideoTrack(kind, p)
+		if g.noPPS {
+			p.pps = nil
+			ts.t.Codec = &codecs.H264{}
+		}
 		// attributes that only mean something for audio renditions may be set on the video track as well
 		if T.Chance(1, 5) {
 			ts.t.IsDefault = true
@@ -552,6 +560,9 @@ func genVideoCalls(T *Tape, g *muxGen, c *muxCfg, ts *trackSpec, _ []*writeCall,
 				p = videoParamVariantR(ts.kind, T.Intn(4)+4*variant, ts.reorder)
 				if T.Chance(1, 3) {
 					p = changeOneField(ts.kind, cur, T.Intn(12))
+				}
+				if g.noPPS {
+					p.pps = nil
 				}
 				if !p.equal(cur) {
 					changed = true
